@@ -241,7 +241,7 @@ class Check(PropertyCheck):
                 if st["k"] in ("c80", "c443") and sts == [200]: cn.tunnel = True
                 outs.append({"client": sts, "writes": ws, "closed": cn.client not in cn.w.transports})
             return {"steps": outs, "errors": [e[0] + ": " + e[1][:200] for cn in conns for e in cn.w.errors],
-                    "tunneled": sorted(cn.cid for cn in conns if cn.client in ua.tunneled)}
+                    "tunneled": sorted(cn.cid for cn in conns if cn.client in getattr(ua, "tunneled", ()))}
 
     # ------------------------------------------------------------------ property oracle (needs no model)
     def oracle(self, case, obs):
